@@ -148,3 +148,39 @@ func TestMapKeys(t *testing.T) {
 		t.Fatalf("want 6 permutations, got %v (executions %d)", seen, x.Executions)
 	}
 }
+
+func TestUnboundedPipeline(t *testing.T) {
+	var res []string
+	mk := func(unbounded bool, bound int) *Explorer {
+		return &Explorer{Unbounded: unbounded, Bound: bound, Body: func() { res = nil; pipeline([]string{"a", "b", "c"}, 0, &res)() },
+			Check: func(e *Exec) (string, string) {
+				if e.Deadlock {
+					return "deadlock", fmt.Sprint("deadlock: ", e.Leaked)
+				}
+				return fmt.Sprint(res), ""
+			}}
+	}
+	u := mk(true, 0)
+	u.Explore()
+	t.Logf("unbounded: executions=%d states=%d pruned=%d outcomes=%v fail=%q infra=%q", u.Executions, u.States, u.Pruned, u.Outcomes, u.Fail, u.Infra)
+	if u.Fail != "" || u.Infra != "" {
+		t.Fatal(u.Fail, u.Infra)
+	}
+	// cross-validation of the pruning: the number of distinct complete-run outcomes must equal that of a deep bounded search
+	b := mk(false, 4)
+	b.Explore()
+	t.Logf("bound 4: executions=%d outcomes=%v", b.Executions, b.Outcomes)
+	if len(b.Outcomes) != len(u.Outcomes) {
+		t.Fatalf("outcome sets differ: %v vs %v", b.Outcomes, u.Outcomes)
+	}
+	// early failure variant must find the same verdict
+	x := &Explorer{Unbounded: true, Body: func() { res = nil; pipeline([]string{"a", "b", "c", "d"}, 2, &res)() },
+		Check: func(e *Exec) (string, string) {
+			if e.Deadlock {
+				return "deadlock", fmt.Sprint("deadlock: ", e.Leaked)
+			}
+			return "ok", ""
+		}}
+	x.Explore()
+	t.Logf("early-fail unbounded: executions=%d states=%d fail=%q", x.Executions, x.States, x.Fail)
+}
